@@ -1,2 +1,3 @@
 import Nstd.Server.PropsC13
 import Nstd.Server.PropsC14
+import Nstd.Server.PropsC13Batch
